@@ -16,6 +16,7 @@ package afero
 
 import (
 	"path/filepath"
+	"runtime"
 	"sort"
 	"strings"
 )
@@ -32,6 +33,10 @@ import (
 // This was adapted from (http://golang.org/pkg/path/filepath) and uses several
 // built-ins from that package.
 func Glob(fs Fs, pattern string) (matches []string, err error) {
+	// Check pattern is well-formed.
+	if _, err := filepath.Match(pattern, ""); err != nil {
+		return nil, err
+	}
 	if !hasMeta(pattern) {
 		// Lstat not supported by a ll filesystems.
 		if _, err = lstatIfPossible(fs, pattern); err != nil {
@@ -105,6 +110,9 @@ func glob(fs Fs, dir, pattern string, matches []string) (m []string, e error) {
 // hasMeta reports whether path contains any of the magic characters
 // recognized by Match.
 func hasMeta(path string) bool {
-	// TODO(niemeyer): Should other magic characters be added here?
-	return strings.ContainsAny(path, "*?[")
+	magicChars := `*?[`
+	if runtime.GOOS != "windows" {
+		magicChars = `*?[\`
+	}
+	return strings.ContainsAny(path, magicChars)
 }
